@@ -1,6 +1,7 @@
 """Experiment simulator shared by C01 / C02 / C03 / C07: builds experiments from JSON specs,
 runs the real Experiment.run in-process or on the simulated multiprocessing layer, and
 normalises Results for comparison."""
+import json
 import math
 
 from checks.common import quiet_context, ListSinkH, weighted
@@ -94,6 +95,8 @@ def build_learner(spec):
         return K.LowBitsLearner(**kw)
     if kind == "modrng":
         return K.ModuleRandomLearner(**kw)
+    if kind == "initdraw":
+        return K.InitDrawLearner(**kw)
     if kind == "faulty":
         return K.FaultyLearner(**kw)
     if kind == "recording":
@@ -102,6 +105,8 @@ def build_learner(spec):
         return K.InfoLearner(**kw)
     if kind == "plearner":
         return K.ParamLearner(**kw)
+    if kind == "plearnerB":
+        return K.ParamLearnerB(**kw)
     raise ValueError(kind)
 
 
@@ -137,6 +142,10 @@ def build_experiment(spec):
         # one call on the Environments object that holds ALL groups: every pipeline receives the same filter object
         envs = list(getattr(cb.Environments(envs), name)(**a))
     lrns = [build_learner(s) for s in spec["learners"]]
+    shared = {}
+    for l in lrns:
+        if getattr(l, "share", None) is not None:
+            l._shared = shared.setdefault(l.share, dict(l._params))      # ONE dict object for all learners of the group (per build)
     vals = [build_evaluator(s) for s in spec["evaluators"]]
     if spec["shape"] == "product":
         if spec.get("default_evaluator"):
@@ -358,7 +367,11 @@ def gen_env_group(rng, idx, allow=("linear", "neighbors", "bandit", "tagged", "s
         Ys = [round(rng.random(), 2) if reg else rng.choice(["a", "b", "c"]) for _ in range(m)]
         src = ["supervised", {"X": Xs, "Y": Ys, "label_type": "r" if reg else "c", "via": weighted(rng, [("xy", 2), ("source", 1)])}]
     else:
-        src = ["tagged", {"tag": f"T{idx}", "n": n, "n_actions": 2 + rng.randrange(3), "extra": rng.random() < 0.3}]
+        src = ["tagged", {"tag": f"T{idx}", "n": n, "n_actions": 2 + rng.randrange(3), "extra": rng.random() < 0.3,
+                          "nested_run": rng.random() < 0.05}]
+        # (not generated: "mod_rng", an ENVIRONMENT whose data is drawn with the module-level coba.random functions.  Behind a cache its first
+        #  slice is produced by the experiment's peek and the rest lazily inside whichever evaluation reads on first, so what it yields depends
+        #  on how tasks are spread over processes; the per-evaluation seeding of 6b3b7fc covers learners, not this.  See DESIGN 10.8.)
     ops = []
     # shared prefix / fan-out structure
     r = rng.random()
@@ -398,8 +411,10 @@ def gen_env_group(rng, idx, allow=("linear", "neighbors", "bandit", "tagged", "s
     return {"src": src, "ops": ops}
 
 
-def gen_learner(rng, idx):
-    k = weighted(rng, [("random", 2), ("eps", 3), ("ucb", 2), ("counter", 3), ("pmf", 3), ("kwargs", 1), ("corral", 1), ("info", 1.5), ("misguided", 2), ("lowbits", 1.5), ("modrng", 1.5)])
+def gen_learner(rng, idx, initdraw=False):
+    k = weighted(rng, [("random", 2), ("eps", 3), ("ucb", 2), ("counter", 3), ("pmf", 3), ("kwargs", 1), ("corral", 1), ("info", 1.5), ("misguided", 2), ("lowbits", 1.5), ("modrng", 1.5), ("initdraw", 0.6 if initdraw else 0)])
+    if k == "initdraw":
+        return ["initdraw", {"seed": rng.randrange(1, 9), "tag": f"id{idx}"}]
     if k == "modrng":
         return ["modrng", {"tag": f"mr{idx}"}]
     if k == "lowbits":
@@ -454,7 +469,7 @@ def _flavour_ops(rng, group, flavour):
     return group
 
 
-def gen_spec(rng, max_groups=3, small=False, flavours=(("sim", 5), ("logged", 2), ("grounded", 1))):
+def gen_spec(rng, max_groups=3, small=False, flavours=(("sim", 5), ("logged", 2), ("grounded", 1)), initdraw=False):
     n_groups = 1 + rng.randrange(max_groups)
     flavour = weighted(rng, list(flavours))
     if flavour == "sim":
@@ -477,7 +492,7 @@ def gen_spec(rng, max_groups=3, small=False, flavours=(("sim", 5), ("logged", 2)
         groups = [_flavour_ops(rng, gen_env_group(rng, i, allow=("bandit", "tagged"), small=small), "grounded") for i in range(n_groups)]
         evals = [["igl", {"seed": weighted(rng, [(None, 2), (5, 1)])}]]
     spec = {"envs": groups, "flavour": flavour,
-            "learners": [gen_learner(rng, i) for i in range(1 + rng.randrange(3))],
+            "learners": [gen_learner(rng, i, initdraw) for i in range(1 + rng.randrange(3))],
             "evaluators": evals,
             "seed": weighted(rng, [(1, 2), (rng.randrange(2, 99), 1)]),
             "quiet": rng.random() < 0.8,
@@ -488,6 +503,12 @@ def gen_spec(rng, max_groups=3, small=False, flavours=(("sim", 5), ("logged", 2)
                                                       "using": weighted(rng, [(None, 2), (5, 1)])}], 3),
                                            (["impute", {"stats": ["mean"], "indicator": False, "using": None}], 1),
                                            (["noise", {"seed": rng.randrange(1, 9)}], 1)])]
+    if "modrng" in json.dumps(spec["learners"]):
+        # (a run nested inside an environment's read seeds the module-level generator - as every run does for its own evaluations - in the
+        #  middle of the outer evaluation; together with a learner that draws from that generator the outcome depends on where the read
+        #  happens.  Two rarities at once; not combined)
+        for g in spec["envs"]:
+            g["src"][1].pop("nested_run", None)
     if rng.random() < 0.6:
         spec["shape"] = "product"
         spec["default_evaluator"] = len(spec["evaluators"]) == 1 and spec["evaluators"][0][0] == "seqcb" and rng.random() < 0.2
